@@ -164,7 +164,6 @@ def do_replay(prop: str, path: str) -> int:
                 print("   model:", model[i + 1][0])
         print("final state (impl):", impl[-1]["state"])
         return 0
-<<<<<<< HEAD
     if "sessions" in case:
         # gateway sessions on one persistence file (C05): re-executed on the implementation
         from .props import versessions
@@ -172,12 +171,11 @@ def do_replay(prop: str, path: str) -> int:
             if k in case:
                 print(f"{k}: {case[k]!r}")
         versessions.replay(case)
-=======
+        return 0
     if "byte_history" in case:
         from .props import bytepipe
         print("outcome recorded:", case.get("outcome"), "at step", case.get("step"))
         bytepipe.replay(case)
->>>>>>> 35a347fedaab49058594d67049b5667326106d6e
         return 0
     print(json.dumps(case, indent=1, default=str)[:4000])
     print("(this engine's cases are replayed by re-running the check: the corpus and the seed reproduce them)")
